@@ -197,8 +197,10 @@ func (tb *tables) coq() string {
 	sort.Strings(b)
 	sort.Strings(c)
 	sort.Strings(d)
-	return fmt.Sprintf("((%s : list (N * list N)), (%s : list (N * list N)), (%s : list (Z * list N)), (%s : list (bool * N * list N)))",
-		CoqList(a), CoqList(b), CoqList(c), CoqList(d))
+	if len(a)+len(b)+len(c)+len(d) == 0 {
+		return "T0"
+	}
+	return fmt.Sprintf("(mkT %s %s %s %s)", CoqList(a), CoqList(b), CoqList(c), CoqList(d))
 }
 
 // ---------------------------------------------------------------- running one input
@@ -811,7 +813,7 @@ func runC17(c *Ctx) {
 	if !enc {
 		c.Note("package zerolog was built without -tags binary_log: valid streams, mutations and cut points were skipped")
 	} else {
-		nvalid, nmut, ncut := 120, 1500, 30
+		nvalid, nmut, ncut := 120, 1500, 12
 		if c.Thorough() {
 			nvalid, nmut, ncut = 1500, 40000, 300
 		}
